@@ -43,7 +43,7 @@ class InterpMixin(object):
             return self.branch(z3.Length(v.term) > 0)
         if isinstance(v, SStr):
             return self.branch(z3.Length(v.term) > 0)
-        if isinstance(v, SSeq):
+        if isinstance(v, SSeq) or type(v).__name__ == "SVSeq":
             return self.branch(z3.Length(v.term) > 0)
         if isinstance(v, SObj):
             m = self.class_lookup(v.cls, "__bool__")
@@ -69,7 +69,7 @@ class InterpMixin(object):
             return cls in (bytes, object)
         if isinstance(v, SStr):
             return cls in (str, object)
-        if isinstance(v, SSeq):
+        if isinstance(v, SSeq) or type(v).__name__ == "SVSeq":
             return cls in (list, object)
         if isinstance(v, SObj):
             return isinstance(cls, type) and issubclass(v.cls, cls)
@@ -545,6 +545,15 @@ class InterpMixin(object):
                 elif isinstance(tgt, ast.Subscript):
                     c = self.eval(tgt.value, fr)
                     k = self.eval(tgt.slice, fr)
+                    if type(c).__name__ == "SVSeq":
+                        from .interp import SymSlice as _SS
+                        if not isinstance(k, (slice, _SS)) or (k.step not in (None, 1)):
+                            self.unsupported("del of a single element of a symbolic list")
+                        n = z3.Length(c.term)
+                        lo, ln = self.slice_bounds(k, None, n)
+                        hi = lo + z3.If(ln < 0, 0, ln)
+                        c.term = z3.Concat(z3.Extract(c.term, z3.IntVal(0), lo), z3.Extract(c.term, hi, n - hi))
+                        continue
                     if isinstance(c, (dict, list)) and not is_sym(k):
                         try:
                             del c[k]
